@@ -546,7 +546,7 @@ func openFAuth() (*fsession, error) {
 func runC16(r *Run) {
 	installHooks()
 	hub.reset()
-	r.st.Rule = "N cycles (N = 5 and 20) of each kind — dial+close, dial+peer drop+recover, dial+server close packet, failed dial, stalled peer+close, Close during a running recovery, recovery whose first attempt is refused at the session step — on TCP and WebSocket; after quiescence the number of library goroutines serving connections and the sockets still open at the peer must not grow with N (3 per open connection, none after Close); the lifecycle actions are replayed by Model/Life.v. distinct = distinct request lines"
+	r.st.Rule = "N cycles (N = 5 and 20) of each kind — dial+close, dial+peer drop+recover, dial+server close packet, failed dial, stalled peer+close, Close during a running recovery, recovery whose first attempt is refused at the session step — on TCP and WebSocket; after quiescence the number of library goroutines serving connections and the sockets still open at the peer must not grow with N (3 per open connection, none after Close); the lifecycle actions are replayed by Model/Life.v. Also cycles of a drop while the dispatcher is busy in a handler with frames queued, and Close while a recovery dial waits for a late WebSocket upgrade answer; after Close no goroutine of the library at all may be left. distinct = distinct request lines"
 	ns := []int{5}
 	if r.thorough() {
 		ns = []int{5, 20}
@@ -781,7 +781,7 @@ func (r *Run) boundedDo(f *fsession, ch chan doResult, what string) doResult {
 func runC06(r *Run) {
 	installHooks()
 	hub.reset()
-	r.st.Rule = "peer scripts over {silence, drop after every byte k of the response frame, server close packet, garbage, refused dials, stalled peer that stops reading (write queue fills; TCP and WebSocket), WebSocket re-dial whose upgrade is never answered} x phases {auth, steady state, reconnect} x calls issued before, during and after the fault, on TCP (and WebSocket where expressible): every request call must return a response or an error within request+dial+auth timeouts + slack and never panic (watchdog, recover(), goroutine dump as replay); waiter-sweep and nil-conn regressions are scripted; selected histories are replayed by Model/Waiters.v and Model/Life.v. distinct = distinct request lines"
+	r.st.Rule = "peer scripts over {silence, drop after every byte k of the response frame, server close packet, garbage, refused dials, stalled peer that stops reading (write queue fills; TCP and WebSocket), WebSocket re-dial whose upgrade is never answered} x phases {auth, steady state, reconnect} x calls issued before, during and after the fault, on TCP (and WebSocket where expressible): every request call must return a response or an error within request+dial+auth timeouts + slack and never panic (watchdog, recover(), goroutine dump as replay); waiter-sweep and nil-conn regressions are scripted; selected histories are replayed by Model/Waiters.v and Model/Life.v. Also: a caller context with its own later deadline (the request timeout still bounds the call); a host that leaves connection attempts unanswered after the loss (loopback listener with backlog 0 and a full accept queue): calls made during the recovery return within the bounds. distinct = distinct request lines"
 	// silence
 	for _, trans := range []string{"tcp", "ws"} {
 		if f, err := openF(trans); err == nil {
